@@ -47,7 +47,9 @@ RULE = ("same harness as C06 (bin c06, driver drv_c06), seeds shifted so the two
         "under loop updates; full two-/three-variable matrices symmetric except for one (idx, ~idx) pair placed in every quarter of the index range, "
         "with the gate oracle that no plain cluster update runs while a term is asymmetric (all 4^n entries compared). Serial tempering ladders mix a "
         "zero-field replica with field replicas of one sign (>= 30 rounds of [steps; tempering_step], every replica judged with its own Hamiltonian). "
-        "Mode swap-guard-witness: one fixed input reproducing known finding F25 (guard approves h = 0 with h != 0). "
+        "Mode loop-scripted-exit: every draw position of recorded loop updates (exchange-type, 3-variable, mixed generic samplers) re-run with the word "
+        "0 / 2^11 (draw exactly 0.0), the largest word and words at and next to cumulative boundaries of the exit-leg weights. Ising walks include "
+        "graphs with a variable without real coupling (index gap, or only J = 0 edges) under RVB with h of both signs. Mode swap-guard-witness: one fixed input reproducing known finding F25 (guard approves h = 0 with h != 0). "
         "Non-trivial = at least one operator before or after.")
 
 
@@ -60,6 +62,8 @@ def main(ck):
         ck.correspond("walk", "drv_c06", cases)
         cases = ck.harness("c06", ["f12"])
         ck.correspond("rvb-zero-word", "drv_c06", cases)
+        # scripted exit-leg draws of the loop update (0.0 exactly, largest word, cumulative boundaries)
+        ck.correspond("loop-scripted-exit", "drv_c06", ck.harness("c06", ["loopzero"]))
         # fixed, seed-independent witness of finding F25 (can_swap_managers accepts h = 0 with h != 0): the
         # oracle column FAILs on the unchanged library; known_findings.json turns it into KNOWN-FINDING
         ck.correspond("swap-guard-witness", "drv_c07", ck.harness("c06", ["swapwit"]))
